@@ -1,5 +1,6 @@
 """C13 — numeric literals (narrow): every literal form has an evaluator, prefix -> radix agreement, component order and use
-(whole / fraction / exponent sign / numerator / denominator), negation keeps the variant."""
+(whole / fraction / exponent sign / numerator / denominator), negation keeps the variant; parser leaf vs evaluator agreement on where each
+part of a literal is stored (R12, rules/c13_leaf.py)."""
 import re
 from collections import defaultdict
 from lib.facts import CallGraph, find, walk, is_node, path_of, render, render_stmt, render_pat, fns_in_type, strip_refs
@@ -12,7 +13,9 @@ TECHNIQUE = ("table agreement parser leaf (prefix tag -> RealNumber variant) vs 
              "deviant-sibling check of the negation arms (on their canonical form). Robustness: every evaluator is inspected with the private helpers of its module inlined "
              "(lib.inline: `helper(a)` = its body with the parameters bound to the arguments; an arm of real() is the evaluator of its variant whether written in place, "
              "a function of its own or going through shared helpers), values are followed through named locals and `const` items (Prov.resolve / origin / sel_roots), "
-             "guards are recognised in either polarity / nesting, the MIR flag provenance follows moves into named locals and a helper's parameter into its callers")
+             "guards are recognised in either polarity / nesting, the MIR flag provenance follows moves into named locals and a helper's parameter into its callers; "
+             "R12: role provenance / table agreement between the evaluator's spelling templates (format strings and external constructors, components by lib.provenance) and the parser leafs "
+             "(rules/c13_leaf.py on lib.parsesites + lib.mirfields + lib.mirinline: private helpers expanded, sites and separators found by type and accepted text, never by name)")
 EXPLANATION = (
     "Decides structural clauses of C13 (narrow): (R1) every RealNumber variant a parser leaf constructs has an explicit evaluator arm in real(); (R2) the leaf "
     "that accepts 0x/0o/0b/0d builds the variant whose evaluator calls from_str_radix with 16/8/2/10; (R3) float and scientific put the whole part before "
@@ -27,6 +30,12 @@ EXPLANATION = (
     " (R10) suffixed / annotated integer digits reach their integer kind through an integer parse (today they go through integer()'s f64: known finding)."
     " (R11) complex(): each part is real()'s result converted by a conversion that is total on the numeric variants untyped literal forms evaluate to (a Value method with an arm for each, or a match naming each); "
     "a variant pattern that accepts fewer and defaults the rest to a constant is reported."
+    " (R12) parser leaf vs evaluator, per component of every numeric literal node a parser function of mech_syntax builds (RealNumber::Float / Scientific / Rational, C64Node): "
+    "the component that the evaluator writes before a fixed text of its re-spelling (`.`, `e`, `/`, the sign of the imaginary part) is built from what the leaf parsed before its parser of that "
+    "text and the one written after it from what it parsed after (decided on the MIR: parser applications by type, their order on the input thread, field-sensitive provenance of each "
+    "component; `Token::default()` counts as absent); a part taken over from a sub-literal keeps its side of the decimal point; every variable text the leaf consumed reaches some component; "
+    "a negation node is built exactly on the branch on which the minus-sign parser succeeded. Decided is this positional / conditional agreement of the two tables, not the value the "
+    "evaluator then computes from the spelling."
 )
 RADIX = {"Hexadecimal": ("0x", "16"), "Octal": ("0o", "8"), "Binary": ("0b", "2"), "Decimal": ("0d", "10")}
 
@@ -701,6 +710,8 @@ def run(F, rep, tier):
     rep.floor("C13-R7", "from_str_radix call sites in the literal evaluators", n7, 4)
     run_r11(F, rep, lit, prov, arms)
     run_r8(F, rep)
+    from rules.c13_leaf import run_r12
+    run_r12(F, rep)
 
 
 def pat_has_variant(pat, variant):
